@@ -689,3 +689,37 @@ SILENT += [
        "        if getattr(self, '_last_delivery', None) == marker:\n            return\n        self._last_delivery = marker")],
      None, ["C06", "C03"]),
 ]
+
+
+# ---- round 7 twins
+def _max_timeframe_by_key(src):
+    """max_timeframe rewritten as max(.., key=minutes) over a TUPLE of the supported timeframes (the seeded version tested membership
+    in a one-shot generator)"""
+    import ast as _ast
+    t = _ast.parse(src)
+    fn = [n for n in t.body if isinstance(n, _ast.FunctionDef) and n.name == "max_timeframe"]
+    if not fn:
+        return None
+    fn = fn[0]
+    lines = src.split("\n")
+    first = fn.body[0]
+    start = first.lineno - 1
+    if isinstance(first, _ast.Expr) and isinstance(first.value, _ast.Constant) and isinstance(first.value.value, str):
+        start = fn.body[1].lineno - 1
+    end = fn.end_lineno
+    body = ["    from jesse.enums import timeframes", "    from jesse.utils import timeframe_to_one_minutes as _minutes",
+            "    supported = tuple(class_iter(timeframes))",
+            "    candidates = [t for t in timeframes_list if t in supported]",
+            "    if not candidates:",
+            "        return timeframes.MINUTE_1",
+            "    return max(candidates, key=_minutes)"]
+    return "\n".join(lines[:start] + body + lines[end:])
+
+
+SILENT += [
+    ("r7-max-timeframe-by-key-over-a-tuple", "jesse/helpers.py", _max_timeframe_by_key, None, ["C17"]),
+    # growing into a NEW array with np.resize (the function, not the in-place method)
+    ("r7-grow-with-np-resize-function", "jesse/libs/dynamic_numpy_array/__init__.py",
+     "            new_bucket = np.zeros(self.shape)\n            self.array = np.concatenate((self.array, new_bucket), axis=0)",
+     "            grown = np.zeros((len(self.array) + self.shape[0],) + self.array.shape[1:])\n            grown[:len(self.array)] = self.array\n            self.array = grown", ["C18"]),
+]
